@@ -104,6 +104,19 @@ func (s *Session) VerifC12PopSend() *com.Packet {
 // VerifC12Handle runs the client-side internal task handler on n, writing the result to w.
 func VerifC12Handle(s *Session, n *com.Packet, w data.Writer) error { return muxHandleInternal(s, n, w) }
 
+// VerifC12WithQueue gives a client-side Session built by VerifC12NewClient a send queue (what Connect
+// does), so that packets it queues for the server can be taken with VerifC12PopSend.
+func (s *Session) VerifC12WithQueue() *Session {
+	if s.send == nil {
+		s.send = make(chan *com.Packet, 128)
+	}
+	return s
+}
+
+// VerifC12Script runs the client-side Script handler on n, writing the result to w (the SvResync
+// packet it produces is queued on the Session like in production).
+func VerifC12Script(s *Session, n, w *com.Packet) error { return muxHandleScript(s, n, w) }
+
 // VerifC12Result feeds a result Packet to the server-side Session job handler.
 func (s *Session) VerifC12Result(n *com.Packet) bool { return s.handle(n) }
 
